@@ -12,7 +12,7 @@ Merged into the neighbouring step (see DESIGN / Props.C22 header for the soundne
   * `ctx.Err()`: a read of `cancelled t`, a flag only `t` reads (the environment sets it by `cancel t`);
   * the bodies of the write-locked sections (`extend`, `Grow`, `Close`): one step, enabled iff `cs = []`.
 Values are `Nat`, Go's zero value is `0`.  `mask(pos) = pos &&& (cap-1)` is written `pos % cap`
-(`cap` is a power of two, invariant `Pow2`; `mask_eq_mod`).
+(`cap` is a power of two: `Props.C22.mpmc_cap_pow2`, `mask_eq_mod`).
 -/
 namespace OpenFGAVerif.Model.Mpmc
 
